@@ -2,6 +2,8 @@ package progen
 
 import (
 	"fmt"
+	"strconv"
+	"strings"
 
 	"verif/harness/internal/rng"
 )
@@ -30,6 +32,7 @@ type Config struct {
 	NoCalls    bool     // functions do not call each other (so each can be rejected on its own)
 	Neg        bool     // MiniGo statements goose must reject (assignment to := variables, unsupported op-assign, misplaced returns)
 	Inject     bool     // insert out-of-subset / look-alike statements at random positions (C02)
+	Logs       bool     // logging calls with the comment texts
 	Comments   []string // comment texts to sprinkle (C05)
 	StrLits    []string // string literal contents to use (C05)
 }
@@ -676,6 +679,13 @@ func (g *gen) block(u usage, depth int, n int, pre []*varInfo, results []*Type) 
 			ss = append(ss, s)
 		}
 	}
+	// a logging call is never the last statement of a list (as a last statement it would add a #() to the term)
+	for len(ss) > 0 && ss[len(ss)-1].Op == "log" {
+		ss = ss[:len(ss)-1]
+	}
+	if u != uReturned && len(ss) > 0 {
+		// lists that get no terminator: make sure a non-log statement ends them (handled above)
+	}
 	// terminator
 	switch u {
 	case uReturned:
@@ -716,6 +726,13 @@ func (g *gen) comment(s *Stmt) *Stmt {
 }
 
 func (g *gen) stmt(u usage, depth int, ss *[]*Stmt, results []*Type) *Stmt {
+	if g.cfg.Logs && g.r.Intn(5) == 0 {
+		// a logging call (goose turns it into a comment); never the last statement of a list
+		txt := rng.Pick(g.r, g.cfg.Comments)
+		txt = strings.ReplaceAll(txt, "\n", " ")
+		call := rng.Pick(g.r, []string{"log.Printf(%s, sink)", "log.Println(%s)", "log.Print(%s)"})
+		return &Stmt{Op: "log", Raw: fmt.Sprintf(call, strconv.Quote(txt+" %d"))}
+	}
 	return g.comment(g.stmt1(u, depth, ss, results))
 }
 
@@ -1040,6 +1057,10 @@ func (g *gen) stmt1(u usage, depth int, ss *[]*Stmt, results []*Type) *Stmt {
 			} else {
 				// the key of a slice range has type int: it is only used as an index
 				s = &Stmt{Op: "rangeslice", E: Var(c)}
+				if g.r.Intn(3) == 0 {
+					// a compound operand: c[:len(c)]
+					s.E = &Expr{Op: "sliceexpr", T: c.t, Args: []*Expr{Var(c), nil, mk("len", TU64, Var(c))}}
+				}
 				var first *Stmt
 				var pre []*varInfo
 				switch g.r.Intn(3) {
@@ -1305,6 +1326,9 @@ func (g *gen) function(name string, recv *Param) *Func {
 		body = append(body, &Stmt{Op: "assign", Lhs: se, E: Bin("+", TU64, se, Lit(TU64, 1))})
 	}
 	f.Body = append(body, rest...)
+	if len(g.cfg.Comments) > 0 && g.r.Intn(2) == 0 {
+		f.Doc = rng.Pick(g.r, g.cfg.Comments)
+	}
 	f.Deps = sortedKeys(g.deps)
 	return f
 }
@@ -1323,6 +1347,9 @@ func Generate(r *rng.R, name string, cfg Config) *Package {
 				c.Deps = []string{fmt.Sprintf("K%d", i-1)}
 				c.Val += g.consts[i-1].Val
 			}
+			if len(cfg.Comments) > 0 && r.Intn(2) == 0 {
+				c.Doc = rng.Pick(r, cfg.Comments)
+			}
 			g.consts = append(g.consts, c)
 			p.Decls = append(p.Decls, Decl{Kind: "const", C: c})
 		}
@@ -1334,6 +1361,9 @@ func Generate(r *rng.R, name string, cfg Config) *Package {
 			nf := 1 + r.Intn(3)
 			for j := 0; j < nf; j++ {
 				sd.Fields = append(sd.Fields, Param{Name: fmt.Sprintf("f%d", j), T: g.scalarType()})
+			}
+			if len(cfg.Comments) > 0 && r.Intn(2) == 0 {
+				sd.Doc = rng.Pick(r, cfg.Comments)
 			}
 			g.structs = append(g.structs, sd)
 			p.Decls = append(p.Decls, Decl{Kind: "struct", S: sd})
